@@ -267,6 +267,9 @@ def c14(ctx):
             ctx.evaluated(1, key=(p.tag, 'subset', si))
             if rc != 0:
                 ctx.counters['cli-nonzero'] += 1
+                if all(alone[l][0] == 0 for l in sub):
+                    triage(ctx, 'C14', sub[-1], p, text, 'fails-only-together', 'CLI flags %s: exit status %d although each of these targets compiles alone; files written: %s | %s' % (
+                        sub, rc, {l: len(trees[l]) for l in sub}, log[-300:].replace('\n', ' | ')), {'dsl': text, 'subset': sub, 'exit_status': rc, 'output': log[-1500:]})
                 continue
             for l in sub:
                 if alone[l][0] != 0:
@@ -295,6 +298,8 @@ def c14(ctx):
             ctx.counters['cli-runs-into-one-shared-directory'] += 1
             if rc != 0:
                 ctx.counters['cli-nonzero'] += 1
+                triage(ctx, 'C14', sub[-1], p, text, 'fails-only-together', 'targets %s into ONE directory: exit status %d although each compiles alone: %s' % (sub, rc, log[-300:].replace('\n', ' | ')),
+                       {'dsl': text, 'subset': sub, 'exit_status': rc, 'output': log[-1500:], 'mode': 'shared-directory'})
                 continue
             d = tree_diff(union, trees[sub[0]])
             if d:
@@ -348,6 +353,7 @@ REWRITE_SETS = [
     {'name': 'zchar-as-pad', 'p': 0.0, 'force': {'zchar_as_pad': True}},
     {'name': 'explicit-default-pad', 'p': 0.0, 'force': {'explicit_default_pad': True}},
     {'name': 'length-leading-zero', 'p': 0.0, 'force': {'len_zero': True}},
+    {'name': 'options-in-two-blocks', 'p': 0.0, 'force': {'split_options': True}},
     {'name': 'len-cksum-spelling', 'p': 0.0, 'force': {'lenspell_swap': True}},
     {'name': 'explicit-default-options', 'p': 0.0, 'force': {('explicit_default:' + k): True for k in dslprint.OPTION_DEFAULTS}},
     {'name': 'keylist-expanded', 'p': 0.0, 'force': {'expand_keylist': True}},
